@@ -62,10 +62,60 @@ fn exercise(a: &Array<dyn zarrs::storage::ReadableWritableListableStorageTraits>
     if r.is_ok() { "ok" } else { "panic" }
 }
 
+/// `c13 mut kind=<a3|a2|g3|g2> first=<hex attrs object> attrs=<hex attrs object> [dims=<none|n1,n2 (- = null)>] [shape=a,b] zarrs=<0|1>`:
+/// a node stored with attributes `first` is opened, changed through the handle's setters, stored, and re-opened:
+/// what the handle was told must be what the store holds ("survive storing and re-opening unchanged").
+fn exec_mut(m: &BTreeMap<String, String>) -> String {
+    let kind = m["kind"].as_str();
+    let first = String::from_utf8(unhex(&m["first"])).unwrap();
+    let attrs: serde_json::Map<String, serde_json::Value> = serde_json::from_slice(&unhex(&m["attrs"])).unwrap();
+    let sc = make_store("memory");
+    let store: DynStore = sc.store.clone();
+    let strip = |mut a: serde_json::Map<String, serde_json::Value>| { a.remove("_zarrs"); hex(serde_json::to_string(&a).unwrap().as_bytes()) };
+    match kind {
+        "a3" | "a2" => {
+            if kind == "a3" {
+                let doc = format!(r#"{{"zarr_format":3,"node_type":"array","shape":[4,6],"data_type":"uint8","chunk_grid":{{"name":"regular","configuration":{{"chunk_shape":[2,3]}}}},"chunk_key_encoding":{{"name":"default","configuration":{{"separator":"/"}}}},"fill_value":0,"codecs":[{{"name":"bytes"}}],"attributes":{},"dimension_names":["y0","x0"]}}"#, first);
+                store.set(&key("a/zarr.json"), doc.into_bytes().into()).unwrap();
+            } else {
+                store.set(&key("a/.zarray"), br#"{"zarr_format":2,"shape":[4,6],"chunks":[2,3],"dtype":"|u1","compressor":null,"fill_value":0,"order":"C","filters":null}"#.to_vec().into()).unwrap();
+                if first != "{}" { store.set(&key("a/.zattrs"), first.clone().into_bytes().into()).unwrap(); }
+            }
+            let mut a = match Array::open(store.clone(), "/a") { Ok(a) => a, Err(_) => return "rej-open".into() };
+            { let at = a.attributes_mut(); at.clear(); at.extend(attrs.clone()); }
+            if let Some(sh) = m.get("shape") { a.set_shape(pnl(sh)); }
+            if kind == "a3" {
+                if let Some(d) = m.get("dims") {
+                    let names = if d == "none" { None } else { Some(d.split(',').map(|n| if n == "-" { zarrs::array::DimensionName::from(None::<String>) } else { zarrs::array::DimensionName::from(n) }).collect::<Vec<_>>()) };
+                    a.set_dimension_names(names);
+                }
+            }
+            let opts = zarrs::array::ArrayMetadataOptions::default().with_include_zarrs_metadata(m["zarrs"] == "1");
+            if a.store_metadata_opt(&opts).is_err() { return "err-store".into(); }
+            let b = match Array::open(store.clone(), "/a") { Ok(b) => b, Err(_) => return "rej-reopen".into() };
+            let dims = match b.dimension_names() { None => "none".to_string(), Some(ns) => ns.iter().map(|n| n.as_str().map(|s| s.to_string()).unwrap_or("-".into())).collect::<Vec<_>>().join(",") };
+            format!("ok dims={} shape={} attrs={}", dims, nl(b.shape()), strip(b.attributes().clone()))
+        }
+        _ => {
+            if kind == "g3" {
+                store.set(&key("g/zarr.json"), format!(r#"{{"zarr_format":3,"node_type":"group","attributes":{}}}"#, first).into_bytes().into()).unwrap();
+            } else {
+                store.set(&key("g/.zgroup"), br#"{"zarr_format":2}"#.to_vec().into()).unwrap();
+                if first != "{}" { store.set(&key("g/.zattrs"), first.clone().into_bytes().into()).unwrap(); }
+            }
+            let mut g = match Group::open(store.clone(), "/g") { Ok(g) => g, Err(_) => return "rej-open".into() };
+            { let at = g.attributes_mut(); at.clear(); at.extend(attrs.clone()); }
+            if g.store_metadata().is_err() { return "err-store".into(); }
+            let h = match Group::open(store.clone(), "/g") { Ok(h) => h, Err(_) => return "rej-reopen".into() };
+            format!("ok dims=none shape=- attrs={}", strip(h.attributes().clone()))
+        }
+    }
+}
+
 pub fn exec_doc(line: &str) -> String {
     let (v, m) = parse_line(line);
     let verb = v.get(1).map(|s| s.as_str()).unwrap_or("");
-    let text = unhex(&m["text"]);
+    let text = m.get("text").map(|t| unhex(t)).unwrap_or_default();
     guarded(|| match verb {
         "meta" => twice::<MetadataV3>(&text),
         "adoc" => twice::<ArrayMetadataV3>(&text),
@@ -81,6 +131,7 @@ pub fn exec_doc(line: &str) -> String {
                 Err(e) => { if std::env::var("VERIF_ERR_MSG").is_ok() { eprintln!("ERR: {}", e); } "rej-conv".into() }
             }
         }
+        "mut" => exec_mut(&m),
         "aopen" => {
             let sc = make_store("memory");
             let store: DynStore = sc.store.clone();
@@ -649,5 +700,29 @@ pub fn generate(tier: &str, seed: u64) -> Vec<String> {
     // V2 documents and the V2 -> V3 conversion against the model (own stream: the lines above stay as they were)
     let mut rng2 = Rng::new(seed ^ 0xC13_0002);
     generate_v2(&mut rng2, if thorough { 12000 } else { 1500 }, &mut out);
+    // handles changed through their setters, stored and re-opened (separate stream)
+    {
+        let mut r2 = Rng::new(seed ^ 0xC13_77);
+        // group documents with consolidated metadata of several children (a map whose order the library chooses):
+        // not modelled, but re-serialising the parsed document must be a fixed point
+        for k in 0..(if tier == "thorough" { 40 } else { 8 }) {
+            let n = 2 + (k % 7);
+            let mut names: Vec<String> = (0..n).map(|i| format!("{}{}", (b'a' + ((i * 7 + k) % 26) as u8) as char, i)).collect();
+            if r2.chance(1, 2) { names.reverse(); }
+            let kids: Vec<String> = names.iter().map(|nm| format!(r#""{}":{{"zarr_format":3,"node_type":"group","attributes":{{"i":"{}"}}}}"#, nm, nm)).collect();
+            let doc = format!(r#"{{"zarr_format":3,"node_type":"group","attributes":{{}},"consolidated_metadata":{{"metadata":{{{}}},"kind":"inline","must_understand":false}}}}"#, kids.join(","));
+            out.push(format!("c13 gdoc text={}", hex(doc.as_bytes())));
+        }
+        let objs = ["{}", r#"{"a":1}"#, r#"{"a":1,"b":{"c":[1,2,null]}}"#, r#"{"z":"é","a":false}"#, r#"{"k":[]}"#];
+        let n = if tier == "thorough" { 400 } else { 80 };
+        for _ in 0..n {
+            let kind = *r2.pick(&["a3", "a3", "a2", "g3", "g2"]);
+            let first = *r2.pick(&objs); let attrs = *r2.pick(&objs);
+            let mut l = format!("c13 mut kind={} first={} attrs={} zarrs={}", kind, hex(first.as_bytes()), hex(attrs.as_bytes()), r2.below(2));
+            if kind.starts_with('a') && r2.chance(1, 2) { l.push_str(&format!(" shape={},{}", r2.range(1, 9), r2.range(1, 9))); }
+            if kind == "a3" && r2.chance(2, 3) { l.push_str(&format!(" dims={}", *r2.pick(&["none", "y,x", "-,x", "rows,-", "-,-", "a,a"]))); }
+            out.push(l);
+        }
+    }
     out
 }
